@@ -2,4 +2,4 @@
 
 package props
 
-func init() { extra = append(extra, C05) }
+func init() { extra = append(extra, C05, C11) }
